@@ -200,6 +200,10 @@ Definition summary_source (d : doc) (t : name) : option name :=
   | None => None
   end.
 
+(* a column that WOULD make its table a summary table if it were named group *)
+Definition is_grp (co : column) : bool :=
+  match ctype co, cformula co with CRefList _, Some EGroup => true | _, _ => false end.
+
 (* ---- static inference: of which table is this expression a record (set)? ---------------------- *)
 Definition tenv := list (name * option name).
 
